@@ -33,7 +33,8 @@ CONSTANTS MaxDev,      \* signature-status vectors with at most MaxDev non-valid
           KF_GhostAccountInitiator, \* an initiator of account form without rule on the chain is satisfied by anybody
           KF_V1OmitsHDInfo,         \* the version-1 pre-image does not contain HD_info
           KF_V12OmitsEmpty,         \* the version-1/2 pre-image omits empty fields and has no counts
-          KF_MarkedFlagUncovered    \* modify_block.marked changes processing but is in no pre-image
+          KF_MarkedFlagUncovered,   \* modify_block.marked changes processing but is in no pre-image
+          KF_CoinbaseRider          \* a block's coinbase transaction is never verified but its read / write set is applied
 
 VARIABLES phase,    \* "init" -> "built" -> "verified" -> "mutated" -> "done"
           tx,       \* abstract transaction under verification
@@ -43,12 +44,12 @@ VARIABLES phase,    \* "init" -> "built" -> "verified" -> "mutated" -> "done"
           hist
 vars == <<phase, tx, orig, mut, verdict, hist>>
 
-K0 == [xs |-> FALSE, mref |-> FALSE, ghost |-> FALSE, v1hd |-> FALSE, omit |-> FALSE, mflag |-> FALSE]
+K0 == [xs |-> FALSE, mref |-> FALSE, ghost |-> FALSE, v1hd |-> FALSE, omit |-> FALSE, mflag |-> FALSE, cb |-> FALSE]
 KC == [xs |-> KF_XuperSignSingleKey, mref |-> KF_MarkedRefSoftAccept, ghost |-> KF_GhostAccountInitiator,
-       v1hd |-> KF_V1OmitsHDInfo, omit |-> KF_V12OmitsEmpty, mflag |-> KF_MarkedFlagUncovered]
-KA == [xs |-> TRUE, mref |-> TRUE, ghost |-> TRUE, v1hd |-> TRUE, omit |-> TRUE, mflag |-> TRUE]
+       v1hd |-> KF_V1OmitsHDInfo, omit |-> KF_V12OmitsEmpty, mflag |-> KF_MarkedFlagUncovered, cb |-> KF_CoinbaseRider]
+KA == [xs |-> TRUE, mref |-> TRUE, ghost |-> TRUE, v1hd |-> TRUE, omit |-> TRUE, mflag |-> TRUE, cb |-> TRUE]
 KFName == [xs |-> "KF_XuperSignSingleKey", mref |-> "KF_MarkedRefSoftAccept", ghost |-> "KF_GhostAccountInitiator",
-           v1hd |-> "KF_V1OmitsHDInfo", omit |-> "KF_V12OmitsEmpty", mflag |-> "KF_MarkedFlagUncovered"]
+           v1hd |-> "KF_V1OmitsHDInfo", omit |-> "KF_V12OmitsEmpty", mflag |-> "KF_MarkedFlagUncovered", cb |-> "KF_CoinbaseRider"]
 Only(g) == [K0 EXCEPT ![g] = TRUE]
 
 -----------------------------------------------------------------------------
@@ -536,6 +537,12 @@ Flags == DOMAIN K0
 DevCase(K, t, res) == {KFName[g] : g \in {h \in Flags : K[h] /\ res \in AllowedK(Only(h), t)}}
 DevMut(K, t, m, res) == {KFName[g] : g \in {h \in Flags : K[h] /\ res \in MutAllowedK(Only(h), t, m)}}
 
+(* Block-borne coinbase transaction.  It carries no signature, so it may only create the award: a       *)
+(* coinbase that also carries a read / write set ("write": the rule of account A rewritten) must make   *)
+(* the block unacceptable.                                                                              *)
+Riders == {"none", "write"}
+CoinbaseVerdict(K, r) == IF r = "none" \/ K.cb THEN "ok" ELSE "rej"
+
 (* rich bases of part (b): every field of the schema carries a value *)
 RichOC == OC(<<In("k1"), In("k2")>>, "vprog")
 RichBases == {[HonestTx(v, f, RichOC) EXCEPT !.rich = TRUE] : v \in 1..3, f \in {"multi", "xs3"}}
@@ -588,6 +595,7 @@ MutationRejected ==
 (* (b) the table and the encoders agree: every semantic field is bound by the signing digest of every   *)
 (*     version, signatures by the id only, annotations by nothing                                        *)
 CoverageOK == phase = "init" => \A v \in 1..3 : \A f \in FieldNames : Coverage(KC, v, f) = CoverageWanted(f)
+CoinbaseClean == phase = "init" => \A r \in Riders : CoinbaseVerdict(KC, r) = "ok" => r = "none"
 (* (c) pre-image injectivity *)
 Injective == phase = "init" => \A v \in 1..3 : GrammarInjective(KC, v)
 =============================================================================
